@@ -255,7 +255,7 @@ PROPS["C02"] = {
     "quick": {"shards": 8, "budget_s": 30, "watchdog_s": 900},
     "thorough": {"shards": 16, "budget_s": 420, "watchdog_s": 3600, "release_pass": {"shards": 16, "budget_s": 90}},
     "floor": {"quick": 5000, "thorough": 50000},
-    "require_counters": {"quick": {"variables_compared": 1000000, "faults_agreed": 3000, "cycles_compared": 20000, "semantic_cells_checked": 14, "semantic_cell_values_compared": 80}, "thorough": {"variables_compared": 20000000, "evaluations_under_release_semantics": 5000}},
+    "require_counters": {"quick": {"variables_compared": 1000000, "faults_agreed": 3000, "cycles_compared": 20000, "semantic_cells_checked": 16, "semantic_cell_values_compared": 107}, "thorough": {"variables_compared": 20000000, "evaluations_under_release_semantics": 5000}},
     "rule": "seeded type-directed random programs of the C02 core grammar (see DESIGN C02): elementary-type expressions over one signedness family per operation, assignments incl. implicit "
             "widening, IF/CASE/FOR/WHILE/REPEAT/EXIT/CONTINUE/RETURN, arrays, structs, user functions (positional and named calls), FB instances with state and omitted inputs, "
             "short-circuit guard patterns, FOR bounds evaluated once, loops ending at the type limit; 3-5 cycles of boundary-biased inputs. distinct = (feature set, program hash bucket, "
@@ -266,7 +266,7 @@ PROPS["C02"] = {
                   "(numeric value / bit pattern), and the fault class must agree.",
     "level_note": "Excluded from the generated C02 grammar (still run by C01): mixed signedness, conversions and standard functions, untyped literals, TIME arithmetic, strings. '**', "
                   "operator precedence/associativity, VAR_IN_OUT (plain, through array elements / struct fields / nested FBs, and aliased), by-value inputs, default values of omitted inputs, initial values of FB inputs/outputs, EN/ENO gating of functions and FBs (also from nested callers) and output bindings (to variables, array elements, struct fields) are covered by 13 "
-                  "hand-derived semantic cells (harness/src/engines/c02cells.rs, 80 expected values worked out from IEC Table 71 and the by-reference rule) that run in every tier.",
+                  "hand-derived semantic cells (harness/src/engines/c02cells.rs, 107 expected values worked out from IEC Table 71 and the by-reference rule) that run in every tier.",
     "assumptions": ["the reference evaluator is the trusted base", "value of a FOR control variable after the loop is not compared (re-assigned by the generated program)"],
     "design_ref": "DESIGN.md section 8 (as built; plan in section 3), C02",
 }
